@@ -1014,8 +1014,9 @@ func c20Radius(r *mc.Report, e *Env, unit *int) {
 
 func runC20(r *mc.Report, e *Env) {
 	r.Rule = "every case drives the real ping/pong processing and GossipAndReturnPeers of an unstarted node whose table loop runs in a bubble; selection cases count when gossip returned, distinct = distinct (table size, content id, source, eligible count, ranks of the chosen peers); radius cases count per 3-event sequence, distinct = distinct (network, per-step last radius and gossip size)"
+	r.Assume("long-lived part: up to 1500 (thorough 6000) repeated identical reports per chain; histories in which peers sharing a cache ring change their radius hundreds of times are outside the bound (the radius cache is lossy by construction)")
 	r.Assume("table sizes {0,1,3,4,5,8,9,12,33,40} of 272; radius assignments exhaustive up to 8 nodes (thorough: 9), banded patterns above; shuffles exhaustive up to 9 nodes, five structured draw patterns above")
-	r.Assume("keys and contents have equal length >= 1 (callers' contract); a full offer queue is C16's subject; ENR refresh on a higher sequence number is not driven (sender seq = record seq)")
+	r.Assume("keys and contents have equal length >= 1 (callers' contract); a full offer queue is C16's subject; a record refresh triggered by a higher sequence number goes out on a wire that loses everything (it is attempted and times out)")
 	defer time.AfterFunc(time.Until(e.Deadline), func() { c20Expired.Store(true) }).Stop()
 	r.Set("bound", map[string]any{"table_sizes": c20Sizes, "all_radius_assignments_up_to_nodes": map[bool]int{false: 8, true: 9}[e.Thorough()], "all_shuffles_up_to_nodes": 9,
 		"content_ids": map[bool]int{false: 3, true: 6}[e.Thorough()], "ping_pong_sequence_length": map[bool]int{false: 3, true: 4}[e.Thorough()]})
